@@ -231,7 +231,13 @@ class Tokenizer(object):
                                     else:
                                         name = 'ATKEYWORD'
 
-                            value = found  # should not contain unicode escape (?)
+                            if 'ATKEYWORD' == name:
+                                # unknown at-keyword: resolve unicode escapes as in
+                                # an IDENT (the serializer writes them for characters
+                                # the sheet's encoding cannot express)
+                                value = self.unicodesub(_repl, found)
+                            else:
+                                value = found
 
                         if self._doComments or (not self._doComments and
                                                 name != 'COMMENT'):
